@@ -13,6 +13,7 @@ import (
 	"math/big"
 	mrand "math/rand"
 	"net"
+	"os"
 	"runtime"
 	"strings"
 	"sync"
@@ -342,6 +343,7 @@ type WorldCfg struct {
 	Listen         func(network, address string) (net.Listener, error)
 	Handler        func(w *World, h *Handler) gortsplib.ServerHandler // optional wrapper restricting the handler set
 	NoSenderReport bool
+	ReportPeriod   time.Duration // period of the server's RTCP sender and receiver reports (0 = the library's 10 s)
 }
 
 var portRand = mrand.New(mrand.NewSource(time.Now().UnixNano() ^ int64(runtime.NumGoroutine())<<20))
@@ -421,9 +423,16 @@ func StartWorld(cfg WorldCfg) (*World, error) {
 		}
 		if cfg.Multicast {
 			p := randomEvenPort()
-			s.MulticastIPRange, s.MulticastRTPPort, s.MulticastRTCPPort = "224.1.0.0/16", p, p+1
+			// a range of its own for every harness process: the library's group sockets are bound to (group address, port),
+			// so worlds of concurrently running shards never hear each other
+			s.MulticastIPRange = fmt.Sprintf("224.%d.%d.0/24", 1+(os.Getpid()/250)%100, os.Getpid()%250)
+			s.MulticastRTPPort, s.MulticastRTCPPort = p, p+1
 		}
 		w.S = s
+		if cfg.ReportPeriod > 0 {
+			// (verif hook: the periods are private and default to 10 s)
+			gortsplib.VerifSetServerReportPeriods(s, cfg.ReportPeriod, cfg.ReportPeriod)
+		}
 		if err := s.Start(); err != nil {
 			lastErr = err
 			if strings.Contains(err.Error(), "address already in use") {
